@@ -12,7 +12,8 @@ from common import show_list
 LEVEL = "proof"
 LEAN_PROPS = ["FastTicc.Props.C07", "FastTicc.Props.C07mask", "FastTicc.Props.C01", "FastTicc.Props.C06", "FastTicc.Props.C10", "FastTicc.Props.FrontEnd"]
 LEAN_HELPERS = ["FastTicc.Proofs.Stack", "FastTicc.Proofs.Viterbi", "FastTicc.Proofs.Joint"]
-LEAN_TRANSLATED = {"FastTicc.Props.TrMask": ["label_switching_cost_template"]}
+LEAN_TRANSLATED = {"FastTicc.Props.TrMask": ["label_switching_cost_template"],
+                   "FastTicc.Props.TrStackMulti": ["stack_training_data", "stack_training_data_multiple_series"]}
 RULE = ("(a) mask helper on all tuples of stacked lengths (quick: 1..4 series, lengths 1..6; thorough: 1..5 series, "
         "lengths 1..7) plus random longer tuples; (b) complete joint runs with 1..6 series of unequal length, observing "
         "the switching cost and cost table that reach the labelling step in every round; non-trivial = >=2 series and "
